@@ -59,6 +59,7 @@ fn required(plan: &Plan) -> Vec<String> {
         v.push(format!("nested-walk:{}", d.label));
     }
     v.push("nested-growth:observed".into());
+    v.push("equal-after-reservation".into());
     v
 }
 
@@ -294,6 +295,36 @@ fn sequence<E: Entry>(ctx: &mut Ctx) {
                             }
                             None => {}
                         }
+                    }
+                }
+            }
+            4 | 5 => {
+                // reservations are not pushes: the item pushed next still has the same predecessor
+                let k = ctx.rng.below(4);
+                let vals: Vec<E::V> = (0..k).map(|_| pool[ctx.rng.below(pool.len())].clone()).collect();
+                let mut ok = true;
+                if E::can_reserve_items() && ctx.rng.chance(1, 2) {
+                    ok = reserve_items(ctx, &mut c.live, &vals);
+                }
+                if ok && E::can_reserve_regions() {
+                    if let Some(src) = source_region::<E>(&vals) {
+                        let own = if ctx.rng.chance(1, 2) { E::clone_r(&c.live.r) } else { None };
+                        let mut sources: Vec<&E::R> = vec![&src];
+                        if let Some(o) = &own {
+                            sources.push(o);
+                        }
+                        ok = reserve_regions(ctx, &mut c.live, &sources);
+                    }
+                }
+                if !ok {
+                    break;
+                }
+                if let Some(p) = prev.clone() {
+                    if !{ let f__ = ctx.rng.below(nforms); c.push(ctx, &p, f__) } {
+                        break;
+                    }
+                    if E::collapse_top() {
+                        ctx.cover("equal-after-reservation");
                     }
                 }
             }
